@@ -12,7 +12,10 @@ m = {"version": 1,
                "source_commits": [], "add_only": True},
      "engines": [{"name": "tlc", "path": "/opt/veriftools/tla/tla2tools.jar",
                   "serves_properties": sorted(claims["claimed"]),
-                  "kind_free_text": "TLC 1.8 explicit-state model checker: model checking of specs/ and batch/stateful trace validation of implementation runs"}],
+                  "kind_free_text": "TLC 1.8 explicit-state model checker: model checking of specs/ and batch/stateful trace validation of implementation runs"},
+                 {"name": "apalache", "path": "/opt/veriftools/apalache",
+                  "serves_properties": ["C06"],
+                  "kind_free_text": "Apalache 0.58 symbolic model checker: inductive invariant of the BVH life-cycle model (specs/c06/BvhLifeInd.tla), an unbounded complement to the TLC runs of the same check"}],
      "checks": [],
      "notes": "See DESIGN.md. ./check <ID> quick|thorough; exit 0 held / 1 violation / 2 machinery failure.",
      "not_applicable": []}
